@@ -140,6 +140,61 @@ def signed_req(signed: bool, verdict: bool, must: bool, dest: int, binding: int,
     return ok, acc | (not expect), "accepted=%s expected=%s exc=%r asked=%r" % (acc, expect, exc, BACK.asked)
 
 
+# ---- other request types over SOAP at the IdP ---------------------------------------------------
+from saml2_tophat import pack                                     # noqa: E402
+_OTHER = {}
+for _s in (False, True):
+    for _di, _d in enumerate([F.SLO_SOAP_IDP, "http://evil.example.org/slo", None]):
+        lr = samlp.LogoutRequest(id="id-q1", version="2.0", issue_instant=_T, issuer=saml.Issuer(text=F.SP_ID), destination=_d,
+                                 name_id=saml.NameID(text="x"))
+        aq = samlp.AttributeQuery(id="id-q1", version="2.0", issue_instant=_T, issuer=saml.Issuer(text=F.SP_ID), destination=_d,
+                                  subject=saml.Subject(name_id=saml.NameID(text="x")))
+        mn = samlp.ManageNameIDRequest(id="id-q1", version="2.0", issue_instant=_T, issuer=saml.Issuer(text=F.SP_ID), destination=_d,
+                                       name_id=saml.NameID(text="x"), new_id=samlp.NewID(text="y"))
+        for _k, _m in (("logout", lr), ("attrq", aq), ("manage", mn)):
+            if _s:
+                _m.signature = pre_signature_part("id-q1")
+            env = pack.make_soap_enveloped_saml_thingy("%s" % _m)
+            _OTHER[(_k, _s, _di)] = env if isinstance(env, str) else env.decode("utf-8")
+RTYPES = ["logout", "attrq", "manage"]
+RNODE = {"logout": "urn:oasis:names:tc:SAML:2.0:protocol:LogoutRequest", "attrq": "urn:oasis:names:tc:SAML:2.0:protocol:AttributeQuery",
+         "manage": "urn:oasis:names:tc:SAML:2.0:protocol:ManageNameIDRequest"}
+
+
+def other_requests(rtype: int, signed: bool, verdict: bool, must: bool, dest: int):
+    """LogoutRequest / AttributeQuery / ManageNameIDRequest arriving SOAP-enveloped at the IdP."""
+    from veriflib.boot import concrete
+    rtype, signed, dest = concrete(rtype), concrete(signed), concrete(dest)
+    timemodel.set_clock(1000000, _CK.tab)
+    BACK.verdict = {"id-q1": verdict}
+    BACK.asked = []
+    srv = IDP.server
+    srv.config.setattr("idp", "want_authn_requests_signed", must)
+    k = RTYPES[rtype]
+    acc = False
+    exc = None
+    try:
+        if k == "logout":
+            r = srv.parse_logout_request(_OTHER[(k, signed, dest)], BINDING_SOAP)
+        elif k == "attrq":
+            r = srv.parse_attribute_query(_OTHER[(k, signed, dest)], BINDING_SOAP)
+        else:
+            r = srv.parse_manage_name_id_request(_OTHER[(k, signed, dest)], BINDING_SOAP)
+        acc = r is not None and r.message is not None
+    except Exception as e:
+        exc = e
+    # the IdP fixture publishes a SOAP endpoint for single logout only
+    if k == "logout":
+        dest_ok = dest in (0, 2)
+    else:
+        dest_ok = dest == 2
+    expect = dest_ok & ((not signed) | verdict) & ((not must) | signed)
+    ok = acc == expect
+    if acc & signed:
+        ok = ok & ((RNODE[k], "id-q1") in BACK.asked)
+    return ok, acc | (not expect), "accepted=%s expected=%s exc=%r" % (acc, expect, exc)
+
+
 def malformed(which: int):
     timemodel.set_clock(1000000, _CK.tab)
     key = [("wrongroot", 0), ("garbage", 0), ("truncated", 0)][which]
@@ -179,6 +234,13 @@ CONDITIONS = [
                     "sigver.SecurityContext.correctly_signed_authn_request/correctly_signed_message/_check_signature", "config.Config.endpoint"],
          bounds="signature present/absent x verdict x want_authn_requests_signed x Destination {own Redirect endpoint, own POST endpoint, foreign, absent} "
                 "x binding {Redirect (deflate+base64), POST (base64)}; finite, exhaustive"),
+    Cond(name="other_requests", fn="other_requests",
+         params=[("rtype", "int"), ("signed", "bool"), ("verdict", "bool"), ("must", "bool"), ("dest", "int")],
+         pre=["0 <= rtype <= 2", "0 <= dest <= 2"],
+         partitions={"quick": [{"rtype": t, "dest": d} for t in range(3) for d in range(3)]}, timeout={"quick": 600, "thorough": 1200}, path_timeout=120,
+         functions=["entity.Entity.parse_logout_request/parse_manage_name_id_request", "server.Server.parse_attribute_query", "entity.Entity._parse_request",
+                    "entity.Entity.unravel (SOAP)", "soap.parse_soap_enveloped_saml_*", "sigver.SecurityContext.correctly_signed_logout_request/_attribute_query/_manage_name_id_request"],
+         bounds="LogoutRequest / AttributeQuery / ManageNameIDRequest in a SOAP envelope x signature present/absent x verdict x want_authn_requests_signed x Destination {own SOAP endpoint, foreign, absent}"),
     Cond(name="malformed", fn="malformed", params=[("which", "int")], pre=["0 <= which <= 2"],
          partitions={"quick": [{}]}, timeout={"quick": 300, "thorough": 300}, twin=False,
          functions=["entity.Entity._parse_request", "entity.Entity.unravel", "sigver.SecurityContext.correctly_signed_message"],
